@@ -991,6 +991,42 @@ fn run_random<F: FieldApi>(tr: &mut Trace, rng: &mut Rng, plan: &Plan) {
     }
 }
 
+/// Zero tests on near-zero patterns: every representation k*q of zero that fits the raw
+/// constructor, with every single bit flipped (a mask that forgets one bit of one limb
+/// shows here), through iszero, equals against another zero, and equals of (x + c, c).
+fn run_zeroflip<F: FieldApi>(tr: &mut Trace, rng: &mut Rng, _plan: &Plan) {
+    let q = F::modulus();
+    let one = BigUint::from(1u32);
+    let top = &one << (8 * F::RAW_LEN);
+    let mut zeros: Vec<BigUint> = Vec::new();
+    let mut z = BigUint::from(0u32);
+    while z < top && zeros.len() < 5 { zeros.push(z.clone()); z += &q; }
+    let mut m = Mach::<F>::new(tr);
+    let mut ok = m.raw(1, &to_le(&zeros[zeros.len() - 1], F::RAW_LEN), 0)
+        && m.raw(2, &random_raw(rng, &q, F::RAW_LEN), 0);
+    for (zi, z) in zeros.iter().enumerate() {
+        for b in 0..(8 * F::RAW_LEN) {
+            let x = z ^ (&one << b);
+            if x >= top { continue; }
+            if !ok {
+                m = Mach::<F>::new(tr);
+                ok = m.raw(1, &to_le(&zeros[zeros.len() - 1], F::RAW_LEN), 0)
+                    && m.raw(2, &random_raw(rng, &q, F::RAW_LEN), 0);
+                if !ok { return; }
+            }
+            ok = m.raw(0, &to_le(&x, F::RAW_LEN), (zi * 1000 + b) as u32);
+            if !ok { continue; }
+            m.iszero(0);
+            m.equals(0, 1);
+            m.equals(1, 0);
+            if b % 8 == 7 || b % 8 == 0 || b % 64 == 51 || b % 64 == 50 {
+                ok = m.bin("add", 3, 0, 2, b as u32);
+                if ok { m.equals(3, 2); m.equals(2, 3); ok = m.bin("sub", 4, 3, 2, b as u32); if ok { m.iszero(4); } }
+            }
+        }
+    }
+}
+
 /// Candidate strings for the decoders: every length 0..=3*ENC_LEN+1 with
 /// boundary contents, plus random.
 fn run_codec<F: FieldApi>(tr: &mut Trace, rng: &mut Rng, plan: &Plan) {
@@ -1269,6 +1305,7 @@ pub fn run_type<F: FieldApi>(tr: &mut Trace, rng: &mut Rng, what: &str, plan: &P
             "div" => run_div::<F>(tr, rng, plan),
             "split" => run_split::<F>(tr, rng, plan),
             "mulsearch" => run_mulsearch::<F>(tr, rng, plan),
+            "zeroflip" => run_zeroflip::<F>(tr, rng, plan),
             _ => panic!("unknown field sub-domain {}", w),
         }
     }
